@@ -443,6 +443,10 @@ func checkLine(t *rapid.T, p *Program, err error, want int, cls string, det func
 // identifier, division by zero, index out of range, type error, ...) at top
 // level, after arbitrary earlier material.
 func naturalFailRun(t *rapid.T) {
+	if uni(t, "nested", 2) == 1 {
+		nestedNaturalFailRun(t)
+		return
+	}
 	p := genProgram(t, genOpts{failing: true, noise: true})
 	if p.Failing == "" {
 		return
@@ -573,4 +577,63 @@ func brokenTagRun(t *rapid.T) {
 			return d
 		})
 	}
+}
+
+// nestedNaturalFailRun — like naturalFailRun, but the failing operation sits
+// anywhere (if/for/fn/block bodies, contentFor blocks, partials, layouts). A
+// marker probe evaluated in the same tag right before it tells whether the
+// operation was reached; only then is anything asserted.
+func nestedNaturalFailRun(t *rapid.T) {
+	p := genProgram(t, genOpts{probes: true, probePct: 5, failNested: true, noise: true})
+	if p.FailMarker == nil {
+		return
+	}
+	mp := simrt.MapPolicy(uni(t, "maporder", 4))
+	mseed := rapid.Uint64().Draw(t, "mapseed")
+	rt := newRuntime(p, true)
+	setOrder(mp, mseed)
+	out, err := rt.render()
+	count("fault_runs", 1)
+	reached := false
+	for _, inv := range rt.Log {
+		if inv.ID == p.FailMarker.ID && inv.Kind == pkValue {
+			reached = true
+		}
+	}
+	if !reached {
+		count("nested_natural_not_reached", 1)
+		return
+	}
+	site := p.FailMarker
+	count("fault_fired_natural-nested:"+p.Failing, 1)
+	count("pos_fired_nested-statement", 1)
+	count("ctx_fired_"+site.Ctx, 1)
+	det := func() map[string]interface{} {
+		d := p.describe()
+		d["failing_statement"] = p.Failing + " (nested, in " + site.Ctx + ", template " + fmt.Sprintf("%q", site.Tmpl) + " line " + strconv.Itoa(site.Line) + ")"
+		d["output"], d["error"] = out, fmt.Sprint(err)
+		return d
+	}
+	seen("c05", hashStr(p.Main, "natural-nested"))
+	if _, panicked := err.(*renderPanic); panicked {
+		count("render_panicked_natural-nested", 1)
+		return
+	}
+	if err == nil {
+		violate(t, "C05", "failing-operation-fails-render", "c05:natural-swallowed:nested:"+p.Failing, det)
+		return
+	}
+	if out != "" {
+		violate(t, "C05", "failed-render-returns-empty-output", "c05:partial-output:natural-nested:"+p.Failing, det)
+	}
+	if !propEnabled("C15") || site.ElseIf || site.Ambig || p.Features["user_fn_call_cross_template"] > 0 {
+		return
+	}
+	checkLine(t, p, err, site.TopLine, "natural-nested:"+p.Failing, det, func(main string) (string, error) {
+		sp := *p
+		sp.Main = main
+		r := newRuntime(&sp, true)
+		setOrder(mp, mseed)
+		return r.render()
+	})
 }
